@@ -93,15 +93,15 @@ theorem length_delete : ∀ (m : JMap) (k : JKey), (m.delete k).length = m.lengt
     · simp [JMap.delete, c]
     · simp [JMap.delete, c]; exact length_delete m k
 
-theorem liveIn_muts (reg : Nat → Str) (i p : Nat) : ∀ (ms : List Mut) (jm : JMap) (st : KSt), p ≤ jm.length →
-    liveIn (ms.foldl (applyMut reg) (jm, st)).1 i p ≤ liveIn jm i p
+theorem liveIn_muts (fs : Int → Str) (i p : Nat) : ∀ (ms : List Mut) (jm : JMap) (st : KSt), p ≤ jm.length →
+    liveIn (ms.foldl (applyMut fs) (jm, st)).1 i p ≤ liveIn jm i p
   | [], _, _, _ => Nat.le_refl _
   | .store k v :: ms, jm, st, h => by
     simp only [List.foldl, applyMut]
-    exact Nat.le_trans (liveIn_muts reg i p ms _ _ (Nat.le_trans h (length_set jm _ _))) (liveIn_set jm _ _ i p h)
+    exact Nat.le_trans (liveIn_muts fs i p ms _ _ (Nat.le_trans h (length_set jm _ _))) (liveIn_set jm _ _ i p h)
   | .delete k :: ms, jm, st, h => by
     simp only [List.foldl, applyMut]
-    exact Nat.le_trans (liveIn_muts reg i p ms _ _ (by rw [length_delete]; exact h)) (liveIn_delete jm _ i p)
+    exact Nat.le_trans (liveIn_muts fs i p ms _ _ (by rw [length_delete]; exact h)) (liveIn_delete jm _ i p)
 
 theorem liveIn_drop : ∀ (m : JMap) (i a b : Nat), liveIn (m.drop i) a b = liveIn m (a + i) (b + i)
   | m, 0, a, b => by simp
@@ -158,23 +158,23 @@ theorem get_of_live : ∀ (m : JMap) (j : Nat) (k : JKey) (e : Entry), m[j]? = s
     · exact ⟨e1, by simp [JMap.get, c]⟩
     · simpa [JMap.get, c] using get_of_live m j k e h
 
-theorem visited_mono {σ : Type} (reg : Nat → Str) (body : Body σ) : ∀ (n : Nat) (s : LoopSt σ) (x : Nat × Entry),
-    x ∈ s.visited → x ∈ (rangeLoop reg body n s).visited
+theorem visited_mono {σ : Type} (fs : Int → Str) (body : Body σ) : ∀ (n : Nat) (s : LoopSt σ) (x : Nat × Entry),
+    x ∈ s.visited → x ∈ (rangeLoop fs body n s).visited
   | 0, _, _, h => h
   | n + 1, s, x, h => by
     simp only [rangeLoop]
     split
-    · exact visited_mono reg body n _ x h
-    · exact visited_mono reg body n _ x (by simp [h])
+    · exact visited_mono fs body n _ x h
+    · exact visited_mono fs body n _ x (by simp [h])
 
 /-- slot `p` holds key `k` -/
 def Keep (p : Nat) (k : JKey) (jm : JMap) : Prop := ∃ e, jm[p]? = some (some (k, e))
 
-theorem reaches {σ : Type} (reg : Nat → Str) (body : Body σ) (p : Nat) (k : JKey)
+theorem reaches {σ : Type} (fs : Int → Str) (body : Body σ) (p : Nat) (k : JKey)
     (hbody : ∀ (x : Entry) (u : σ) (jm : JMap) (st : KSt), Keep p k jm →
-      Keep p k ((body x u).1.foldl (applyMut reg) (jm, st)).1) :
+      Keep p k ((body x u).1.foldl (applyMut fs) (jm, st)).1) :
     ∀ (n : Nat) (s : LoopSt σ) (i : Nat), s.it = some i → i ≤ p → Keep p k s.jm → liveIn s.jm i p < n →
-      p ∈ (rangeLoop reg body n s).visited.map (·.1)
+      p ∈ (rangeLoop fs body n s).visited.map (·.1)
   | 0, _, _, _, _, _, h => by omega
   | n + 1, s, i, hit, hip, hk, hb => by
     obtain ⟨e, he⟩ := hk
@@ -196,8 +196,8 @@ theorem reaches {σ : Type} (reg : Nat → Str) (body : Body σ) (p : Nat) (k : 
       apply visited_mono
       simp [hq]
     · have hq' : q ≤ p := by omega
-      apply reaches reg body p k hbody n _ q rfl hq' (hbody _ _ _ _ ⟨e, he⟩)
-      have l1 := liveIn_muts reg q p (body e'' s.user).1 s.jm s.st (Nat.le_of_lt hlen)
+      apply reaches fs body p k hbody n _ q rfl hq' (hbody _ _ _ _ ⟨e, he⟩)
+      have l1 := liveIn_muts fs q p (body e'' s.user).1 s.jm s.st (Nat.le_of_lt hlen)
       have l2 := h5 (by omega)
       have e1 : q - i + i = q := by omega
       have e2 : p - i + i = p := by omega
@@ -207,7 +207,7 @@ theorem reaches {σ : Type} (reg : Nat → Str) (body : Body σ) (p : Nat) (k : 
       rw [e1, e2] at d1
       rw [e3, e2] at d2
       rw [d1, d2] at l2
-      have goal : liveIn ((body e'' s.user).1.foldl (applyMut reg) (s.jm, s.st)).1 q p < n := by omega
+      have goal : liveIn ((body e'' s.user).1.foldl (applyMut fs) (s.jm, s.st)).1 q p < n := by omega
       exact goal
 
 end GV.Proofs.GoMapRangeOnce
